@@ -654,9 +654,21 @@ def c18(ctx):
         def strace(inject):
             log = os.path.join(ctx.scratch, "strace.log")
             cmd = ["strace", "-f", "-e", "trace=getrandom", "-o", log] + (["-e", "inject=" + inject] if inject else []) + [e2e]
-            pr = subprocess.run(cmd, stdout=subprocess.PIPE, stderr=subprocess.PIPE, timeout=120)
+            # own process group: when the watchdog fires, the traced program must die with strace (a spinning orphan would
+            # otherwise outlive the check)
+            import signal
+            pp = subprocess.Popen(cmd, stdout=subprocess.PIPE, stderr=subprocess.PIPE, start_new_session=True)
+            try:
+                so, se = pp.communicate(timeout=120)
+            except subprocess.TimeoutExpired:
+                try:
+                    os.killpg(pp.pid, signal.SIGKILL)
+                except OSError:
+                    pass
+                pp.communicate()
+                raise
             lines = [l for l in open(log).read().splitlines() if "getrandom(" in l]
-            return pr.returncode, pr.stdout.decode(), lines
+            return pp.returncode, so.decode(), lines
         try:
             rc, out, lines = strace(None)
         except Exception as e:      # ptrace not permitted / strace missing: sub-check not run, said so
